@@ -422,16 +422,23 @@ pub fn run(tier: &str, seed: u64, out: &str) {
                 pairs.push((i, j));
             }
         }
+        // what may stand between the two position commands: nothing, a new game, a search
+        let separators: [Option<&str>; 3] = [None, Some("ucinewgame"), Some("go depth 1")];
         par_map_init(&pairs, Engine::new, |e, &(i, j)| {
-            // fresh engine for every pair, so the pair is the whole history
-            *e = Engine::new();
-            check(e, &rep, &[&pool[i].0, &pool[j].0], &pool[j].1);
-            commands.fetch_add(2, Ordering::Relaxed);
+            for sep in separators {
+                // fresh engine for every history, so the listed commands are the whole history
+                *e = Engine::new();
+                match sep {
+                    None => check(e, &rep, &[&pool[i].0, &pool[j].0], &pool[j].1),
+                    Some(x) => check(e, &rep, &[&pool[i].0, x, &pool[j].0], &pool[j].1),
+                };
+                commands.fetch_add(2, Ordering::Relaxed);
+            }
         });
-        eprintln!("[C04] ordered pairs: {} commands -> {} pairs ({:.1}s)", pool.len(), pairs.len(), rep.elapsed());
+        eprintln!("[C04] ordered pairs: {} commands -> {} pairs x {} separators ({:.1}s)", pool.len(), pairs.len(), separators.len(), rep.elapsed());
         states_total += pool.len() as u64;
-        transitions_total += pairs.len() as u64;
-        cov_parts.push(J::obj().set("part", "c: every ordered pair of position commands on a fresh engine").set("commands_in_pool", pool.len()).set("pairs", pairs.len()));
+        transitions_total += (pairs.len() * separators.len()) as u64;
+        cov_parts.push(J::obj().set("part", "c: every ordered pair of position commands on a fresh engine, with nothing / ucinewgame / go depth 1 between them").set("commands_in_pool", pool.len()).set("pairs", pairs.len()).set("separators", vec!["(nothing)", "ucinewgame", "go depth 1"]).set("histories", pairs.len() * separators.len()));
     }
 
     // ---- (d) every prefix of long games
